@@ -206,6 +206,21 @@ func AtomUnits() []*Unit {
 			m.FEnum("nv", 3, ".google.protobuf.NullValue", Optional)
 			us = append(us, b.Unit())
 		}
+		// ---- a type of another Go package used ONLY as the value of a map (nothing else pulls the import in)
+		{
+			b := NewUnit(p+"mapwkt", syntax, "wkt").Atom("imported-type-only-as-map-value")
+			b.Import("google/protobuf/duration.proto")
+			m := b.Msg("MapOnly")
+			m.Map("by_name", 1, String, Message, ".google.protobuf.Duration")
+			m.F("note", 2, String, Optional)
+			us = append(us, b.Unit())
+		}
+		// ---- a file that declares no message at all
+		{
+			b := NewUnit(p+"enumonly", syntax, "enumonly").Atom("file-without-messages")
+			b.Enum("Shade").V("SHADE_UNSPECIFIED", 0).V("DARK", 1).V("LIGHT", 2)
+			us = append(us, b.Unit())
+		}
 		// ---- name collisions with generated methods (with specialname for the gogo-style names)
 		{
 			b := NewUnit(p+"names", syntax, "names").Atom("field-names-colliding-with-methods")
@@ -378,6 +393,24 @@ func AtomUnits() []*Unit {
 		o.FMsg("inner", 1, in.Full(), Optional).F("tag", 2, String, Optional)
 		b.Msg("Plain").F("x", 1, Int64, Optional)
 		us = append(us, b.Unit())
+	}
+	{
+		// two proto2 files with required fields that end up in ONE Go package
+		b := NewUnit("p2reqtwofiles", "proto2", "required-two-files").Atom("two-files-one-go-package")
+		dep := &descriptorpb.FileDescriptorProto{Name: proto.String("p2reqtwofiles_dep.proto"), Package: proto.String("verif.p2reqtwofilesdep")}
+		lblR, lblO := descriptorpb.FieldDescriptorProto_LABEL_REQUIRED, descriptorpb.FieldDescriptorProto_LABEL_OPTIONAL
+		dep.MessageType = []*descriptorpb.DescriptorProto{{Name: proto.String("Part"), Field: []*descriptorpb.FieldDescriptorProto{
+			{Name: proto.String("id"), Number: proto.Int32(1), Type: Int32.Enum(), Label: lblR.Enum()},
+			{Name: proto.String("note"), Number: proto.Int32(2), Type: String.Enum(), Label: lblO.Enum()},
+		}}}
+		b.Import(dep.GetName())
+		m := b.Msg("Whole")
+		m.F("name", 1, String, Required)
+		m.FMsg("part", 2, ".verif.p2reqtwofilesdep.Part", Optional)
+		m.FMsg("parts", 3, ".verif.p2reqtwofilesdep.Part", Repeated)
+		u := b.Unit()
+		u.Dep, u.DepSamePackage = dep, true
+		us = append(us, u)
 	}
 	{
 		b := NewUnit("p2reqsamename", "proto2", "required-samename").Atom("required-in-one-of-two-equally-named-nested-messages")
